@@ -166,6 +166,53 @@ def _random_case(r, maxops):
     return case
 
 
+def _hist_case(r):
+    """D-only family: the life of ONE metamodel whose generator is replaced (`m.id_generator = …`, as
+    bridgepoint.ooaofooa users do after load_metamodel) and which is also populated through xtuml.ModelLoader
+    (rows shorter than the table keep defaulted trailing ids; a rejected populate() is followed by more
+    creations).  Generator j hands out 100000*j + 1, +2, … so that the oracle knows which generator a defaulted
+    id came from."""
+    classes = []
+    ops = []
+    for c in range(r.randint(1, 2)):
+        kind = 'K%d' % c
+        attrs = []
+        for a in range(r.randint(1, 4)):
+            attrs.append(['a%d' % a, respell(r, r.choice(['INTEGER', 'STRING', 'BOOLEAN', 'UNIQUE_ID']))])
+        attrs.append(['id%d' % c, respell(r, 'UNIQUE_ID')])         # a trailing id: short rows leave it defaulted
+        if r.random() < 0.4:
+            attrs.append(['z', respell(r, 'UNIQUE_ID')])
+        classes.append((kind, attrs))
+        ops.append(['define', kind, attrs])
+
+    def lit(T):
+        return {'INTEGER': str(r.randint(0, 9)), 'STRING': "'s%d'" % r.randint(0, 9), 'BOOLEAN': r.choice(['true', 'false']),
+                'UNIQUE_ID': r.choice(['%d' % r.randint(1, 9), '"00000000-0000-0000-0000-00000000000%d"' % r.randint(1, 9)])}[T.upper()]
+
+    def wrong(T):
+        return {'INTEGER': "'x'", 'STRING': '1.5', 'BOOLEAN': "'x'", 'UNIQUE_ID': "'x'"}[T.upper()]
+
+    for _ in range(r.randint(3, 12)):
+        w = r.random()
+        kind, attrs = r.choice(classes)
+        if w < 0.35:
+            ops.append(['new', respell(r, kind), [], []])
+        elif w < 0.55:
+            ops.append(['swapgen'])
+        else:
+            rows = []
+            for _ in range(r.randint(1, 3)):
+                k2, a2 = r.choice(classes)
+                n = r.randint(1, len(a2) - 1)
+                rows.append([respell(r, k2), [lit(t) for _, t in a2[:n]]])
+            if w > 0.85:
+                # a row the loader refuses while populating (a value of the wrong lexical form), after good rows
+                k2, a2 = r.choice(classes)
+                rows.append([k2, [wrong(a2[0][1])]])
+            ops.append(['load', rows])
+    return {'gen': 'user', 'start': 1, 'step': 1, 'fam': 'hist', 'ops': ops}
+
+
 def generate(ctx):
     depth = ctx.pick(9, 13)
     for spec in ({'gen': 'int'}, {'gen': 'uuid'}, {'gen': 'user', 'start': 7, 'step': 3}):
@@ -175,6 +222,9 @@ def generate(ctx):
             c['fam'] = 'gen'
             c['ops'] = [[o] for o in seq]
             yield c
+    hr = ctx.rng.fork('hist')
+    for i in range(ctx.pick(1500, 20000)):
+        yield _hist_case(hr.fork(i))
     rng = ctx.rng.fork('random')
     n = ctx.pick(6000, 60000)
     maxops = ctx.pick(14, 30)
@@ -221,7 +271,93 @@ def _exc_name(e):
     return Sym('Other')
 
 
+def _run_hist(case):
+    x = _x
+    import logging
+    logging.getLogger('xtuml.load').setLevel(logging.ERROR)
+    BASE = 100000
+
+    def make(j):
+        class Counting(x.IdGenerator):
+            def __init__(self):
+                self.count = 0
+                x.IdGenerator.__init__(self)
+
+            def readfunc(self):
+                self.count += 1
+                return BASE * j + self.count
+        return Counting()
+
+    j = 0
+    m = x.MetaModel(make(0))
+    classes = {}
+    fails, seen = [], set()
+    stats = {'cases_hist': 1}
+    checked = 0
+
+    def fail(sig, what, upto):
+        if len(fails) < 4:
+            fails.append({'sig': sig, 'what': '%s; history: %r' % (what, case['ops'][:upto + 1])})
+
+    def check_id(v, where, n):
+        nonlocal checked
+        checked += 1
+        if v is None or isinstance(v, bool) or not isinstance(v, int) or v == 0:
+            fail('null-id', '%s: defaulted unique id is %r' % (where, v), n)
+            return
+        if not (BASE * j < v < BASE * (j + 1)):
+            fail('id-not-from-metamodel-generator', '%s: defaulted unique id %r was not handed out by the metamodel\'s '
+                 'current generator (number %d, range %d..%d)' % (where, v, j, BASE * j + 1, BASE * (j + 1) - 1), n)
+        if v in seen:
+            fail('id-repeats', '%s: defaulted unique id %r was already handed out in this metamodel' % (where, v), n)
+        seen.add(v)
+
+    for n, op in enumerate(case['ops']):
+        nm = op[0]
+        stats['op_' + nm] = stats.get('op_' + nm, 0) + 1
+        if nm == 'define':
+            m.define_class(op[1], [tuple(a) for a in op[2]])
+            classes[op[1].upper()] = [tuple(a) for a in op[2]]
+        elif nm == 'swapgen':
+            j += 1
+            m.id_generator = make(j)
+        elif nm == 'new':
+            inst = m.new(op[1])
+            for a, t in classes[op[1].upper()]:
+                if t.upper() == 'UNIQUE_ID':
+                    check_id(inst.__dict__.get(a), 'new(%r).%s' % (op[1], a), n)
+        elif nm == 'load':
+            before = dict((k, len(m.metaclasses[k].storage)) for k in classes)
+            text = '\n'.join('INSERT INTO %s VALUES (%s);' % (k, ', '.join(vs)) for k, vs in op[1])
+            loader = x.ModelLoader()
+            try:
+                loader.input(text)
+                loader.populate(m)
+                ok = True
+            except x.ParsingException:
+                ok = False
+            stats['load_ok' if ok else 'load_rejected'] = stats.get('load_ok' if ok else 'load_rejected', 0) + 1
+            if ok:
+                for K in classes:
+                    rows = [vs for k, vs in op[1] if k.upper() == K]
+                    made = list(m.metaclasses[K].storage)[before[K]:]
+                    if len(made) != len(rows):
+                        fail('load-instance-count', 'loading %d rows of %s created %d instances' % (len(rows), K, len(made)), n)
+                        continue
+                    for vs, inst in zip(rows, made):
+                        for pos, (a, t) in enumerate(classes[K]):
+                            if pos >= len(vs) and t.upper() == 'UNIQUE_ID':
+                                check_id(inst.__dict__.get(a), 'row (%s) of %s, attribute %s left to its default'
+                                         % (', '.join(vs), K, a), n)
+        else:
+            raise ValueError(nm)
+    return {'obs': [], 'd_fail': fails, 'nontrivial': checked >= 2 and (stats.get('op_swapgen') or stats.get('op_load')),
+            'key': 'hist/%r' % (case['ops'],), 'stats': stats, 'model_line': None}
+
+
 def run_impl(case):
+    if case.get('fam') == 'hist':
+        return _run_hist(case)
     x = _x
     uuid_log = []
     gen = _make_generator(case, uuid_log)
